@@ -430,6 +430,27 @@ def packChunk(msg):
     lines.append(b'\r\n')
     return (b''.join(lines))
 
+def findEol(raw, eols):
+    """
+    Returns duple (index, eol) of the end of line in eols that occurs first
+    in raw. When two of them start at the same index the one listed first in
+    eols wins so list CRLF before CR.
+    Returns (-1, None) when there is none yet. A CR that is the last byte of
+    raw is not yet an end of line when CRLF is also in eols, since its LF
+    may not have arrived yet.
+    """
+    index = -1
+    found = None
+    for eol in eols:
+        i = raw.find(eol)  # not found i == -1
+        if i >= 0 and (index < 0 or i < index):
+            index = i
+            found = eol
+    if found == CR and CRLF in eols and index == len(raw) - 1:
+        return (-1, None)  # wait to see if LF follows
+    return (index, found)
+
+
 def parseLine(raw, eols=(CRLF, LF, CR ), kind="event line"):
     """
     Generator to parse  line from raw bytearray
@@ -444,10 +465,7 @@ def parseLine(raw, eols=(CRLF, LF, CR ), kind="event line"):
     Raise error if eol not found before MAX_LINE_SIZE
     """
     while True:
-        for eol in eols:  # loop over eols unless found
-            index = raw.find(eol)  # not found index == -1
-            if index >= 0:
-                break
+        index, eol = findEol(raw, eols)  # earliest eol, not found index == -1
 
         if index < 0:  # not found
             if len(raw) > MAX_LINE_SIZE:
@@ -476,10 +494,7 @@ def parseLeader(raw, eols=(CRLF, LF), kind="leader header line", headers=None):
     """
     headers = headers if headers is not None else cimdict()
     while True:  # loop until entire heading indicated by empty line
-        for eol in eols:  # loop over eols unless found
-            index = raw.find(eol)  # not found index == -1
-            if index >= 0:
-                break
+        index, eol = findEol(raw, eols)  # earliest eol, not found index == -1
 
         if index < 0:  # not found
             if len(raw) > MAX_LINE_SIZE:
